@@ -130,6 +130,12 @@ func c17Oracle(in c17In) probe.Outcome {
 					rejectedThenGenuine = true
 				}
 			case "unprotect-tampered":
+				if op.Pos%3 == 0 {
+					// an altered copy of a message the long-lived SA has just accepted
+					if _, err := libUnprotect(w, L, op.AsI, op.WithHdr); err != nil {
+						return probe.Fail("%s: genuine message refused by the long-lived SA: %v", step, err)
+					}
+				}
 				x := append([]byte(nil), w...)
 				pos := 17 + op.Pos%(len(x)-17) // never the first-payload octet (carve-out of C02)
 				x[pos] ^= 1 << uint(op.Bit%8)
